@@ -147,7 +147,7 @@ func (cs *ContractSet) loadFile(path string) error {
 	for _, l := range joined {
 		w, rest := splitWord(l.text)
 		switch w {
-		case "func", "extern", "iface", "lemmafn":
+		case "func", "extern", "iface", "lemmafn", "callback":
 			c := &Contract{Kind: w, Name: strings.TrimSpace(rest), Loops: map[int]*LoopSpec{}, Line: l.line, File: path}
 			if _, dup := cs.Funcs[c.Name]; dup {
 				return fmt.Errorf("%s:%d: duplicate contract for %s", path, l.line, c.Name)
@@ -189,7 +189,7 @@ func (cs *ContractSet) loadFile(path string) error {
 	return nil
 }
 
-var keywords = map[string]bool{"func": true, "extern": true, "iface": true, "lemmafn": true, "spec": true, "axiom": true, "lemma": true, "ghost": true,
+var keywords = map[string]bool{"callback": true, "func": true, "extern": true, "iface": true, "lemmafn": true, "spec": true, "axiom": true, "lemma": true, "ghost": true,
 	"requires": true, "ensures": true, "modifies": true, "nopanic": true, "loop": true, "props": true, "results": true,
 	"params": true, "use": true, "decreases": true, "trusted": true, "pure": true, "inline": true, "frame": true}
 
